@@ -73,6 +73,26 @@ def build_pair(src):
         for key in list(D2.delta):
             if D2.delta[key] == q and rng.random() < 0.5:
                 D2.delta[key] = c
+    elif mode < 0.8:
+        # a NEAR-duplicate: state c copies q except for one transition or its acceptance, and takes over
+        # some of q's incoming edges - whether the two automata look alike depends on which of the
+        # pending pairs (q, .) is explored first
+        D2 = U.rename_fa(D1, {"s%d" % i: "u%d" % i for i in range(k1)})
+        q = rng.choice(sorted(D2.Q))
+        c = "dup"
+        D2.Q.add(c)
+        if q in D2.F:
+            D2.F.add(c)
+        for a in S:
+            D2.delta[c, a] = D2.delta[q, a]
+        if rng.random() < 0.5:
+            D2.F ^= {c}
+        else:
+            D2.delta[c, rng.choice(sorted(S))] = rng.choice(sorted(D2.Q))
+        inc = [key for key in D2.delta if D2.delta[key] == q]
+        for key in inc:
+            if rng.random() < 0.5:
+                D2.delta[key] = c
     else:
         D2 = U.random_dfa(rng, rng.randint(1, 5), S, prefix=rng.choice(["s", "t"]))
     return D1, D2
